@@ -1,5 +1,6 @@
 #!/usr/bin/env python3
-"""tools/seeded.py <seedout-dir> [--budget S] [--props C02,C03] [--skip-existing-tests]
+"""tools/seeded.py <seedout-dir> [--budget S] [--props C02,C03] [--skip-existing-tests] [--prefix W3-]
+   tools/seeded.py /verif/seeded/<name> --recheck [--budget S] [--props ...]   (re-run the checks only)
 
 Validates one seeded breaking change produced by an independent sub-agent and records it under
 /verif/seeded/<name>/ :
@@ -56,6 +57,19 @@ def main():
     name = os.path.basename(src)
     if "--prefix" in a:
         name = a[a.index("--prefix") + 1] + name
+    if "--recheck" in a:
+        # only re-run our checks against an already recorded change and update its meta.json
+        dst = src if os.path.isfile(os.path.join(src, "patch.diff")) and src.startswith("/verif/seeded") else os.path.join("/verif/seeded", name)
+        m = json.load(open(os.path.join(dst, "meta.json")))
+        for p in (props or [m["property"]]):
+            rc, out = sh(["/verif/tools/mutant.sh", p, os.path.join(dst, "patch.diff"), budget], timeout=7200)
+            verdict = [l for l in out.splitlines() if l.startswith("MUTANT")]
+            viol = [l.strip()[:300] for l in out.splitlines() if l.strip().startswith("violated")]
+            m["checks_run"][p] = {"verdict": (verdict[-1].split(": ")[-1] if verdict else "ERROR"), "violations": viol[:4]}
+            print(os.path.basename(dst), p, m["checks_run"][p]["verdict"])
+        m["checked_at"] = time.strftime("%Y-%m-%dT%H:%M:%SZ", time.gmtime())
+        json.dump(m, open(os.path.join(dst, "meta.json"), "w"), indent=1)
+        return
     meta = json.load(open(os.path.join(src, "meta.json")))
     prop = meta["property"]
     props = props or [prop]
